@@ -37,6 +37,23 @@ let () = register "gfop" (fun a ->
       (int_of_z (gf_inv f xz)) (int_of_z (gf_add xz yz))
   | _ -> "BAD")
 
+let lib_field_params = function
+  | "qr" -> ("285", "256", "0") | "dm" -> ("301", "256", "1")
+  | "az4" -> ("19", "16", "1") | "az6" -> ("67", "64", "1") | "az8" -> ("301", "256", "1")
+  | "az10" -> ("1033", "1024", "1") | "az12" -> ("4201", "4096", "1")
+  | _ -> failwith "unknown library field"
+
+(* the library's own field objects are modelled by gf_new at the ISO parameters *)
+let () = register "gfoplib" (fun a ->
+  match a with
+  | [w; x; y] ->
+    let (pp, size, base) = lib_field_params w in
+    let f = get_field pp size base in
+    let xz = z_of_string x and yz = z_of_string y in
+    Printf.sprintf "%d %s %d %d" (int_of_z (gf_mul f xz yz)) (show_div (gf_div f xz yz))
+      (int_of_z (gf_inv f xz)) (int_of_z (gf_add xz yz))
+  | _ -> "BAD")
+
 (* oracle: textbook shift-and-add multiplication modulo pp (independent of the log tables) *)
 let () = register "gfopspec" (fun a ->
   match a with
